@@ -144,8 +144,29 @@ theorem World.genX_ok {W : World} (hW : W.Good) {aS aD : Nat} (ha : W.ρ aS aD) 
       · omega
       · simp only [List.length_cons] at h; omega
     · have := hσD p hp; omega
+  have hunb : ∀ x y,
+      (W.genX aS (tS :: tsS) sT aD (tD :: tsD) (walk (genΔ (tD :: tsD) aD W.nD ++ W.σD) rD)).ρ x y →
+      (∀ p ∈ (W.genX aS (tS :: tsS) sT aD (tD :: tsD) (walk (genΔ (tD :: tsD) aD W.nD ++ W.σD) rD)).σS, p.1 ≠ x) ∧
+      (∀ p ∈ (W.genX aS (tS :: tsS) sT aD (tD :: tsD) (walk (genΔ (tD :: tsD) aD W.nD ++ W.σD) rD)).σD, p.1 ≠ y) := by
+    intro x y r
+    have hy : y ≠ aD := fun e => r.2 (hW.inj _ _ _ r.1 (e ▸ ha))
+    have hylt : y < W.nD := hW.scD y (.inr ⟨x, r.1⟩)
+    constructor
+    · intro p hp
+      simp only [World.genX, List.mem_cons] at hp
+      rcases hp with rfl | hp
+      · exact fun e => r.2 e.symm
+      · exact (hW.unb x y r.1).1 p hp
+    · intro p hp
+      simp only [World.genX, List.mem_cons, List.mem_append] at hp
+      rcases hp with rfl | hp | hp
+      · simp only; rw [hlast]; omega
+      · rcases genΔ_keys _ _ _ p hp with h | h
+        · omega
+        · omega
+      · exact (hW.unb x y r.1).2 p hp
   refine ⟨⟨fun a b b' h h' => hW.fn a b b' h.1 h'.1, fun a a' b h h' => hW.inj a a' b h.1 h'.1,
-    fun v hv => hW.scS v (tS' v hv), fun v hv => ?_⟩,
+    fun v hv => hW.scS v (tS' v hv), fun v hv => ?_, hunb⟩,
     ⟨?_, ⟨[(aS, Term.list (tS :: tsS) sT)], rfl⟩,
       ⟨(genLast (tD :: tsD) aD W.nD, walk (genΔ (tD :: tsD) aD W.nD ++ W.σD) rD) :: genΔ (tD :: tsD) aD W.nD, rfl⟩,
       Nat.le_refl _, Nat.le_add_right _ _, fun v hv => .inl (tS' v hv), fun v hv => ?_⟩, hune, hunb0⟩
